@@ -185,6 +185,11 @@ def run_regions(ctx, res, cases, oracle, mode, known_ok=True):
                                  'history': [op_str(o) for o in ops], 'first_difference_at_op': t,
                                  'impl': [' '.join(g) for g in io], 'model': [' '.join(g) for g in mo]})
         res.per_profile[prof] = res.per_profile.get(prof, 0) + len(cases)
+        if prof == 'checked' and os.environ.get('VERIF_VMCHECK', '1') == '1':
+            # the extracted driver against vm_compute inside Coq, on a sample
+            n, bad = lib.vm_crosscheck(cases, model, prof, NUMBERING, gen.parse)
+            res.extra['extraction_crosschecked_by_vm_compute'] = res.extra.get('extraction_crosschecked_by_vm_compute', 0) + n
+            for b in bad: res.corr.append(b)
     return res
 
 def known_class(e, prop=None):
